@@ -26,6 +26,7 @@ type lockRig struct {
 	mRetN      int
 	mRetI      int
 	mReq       *ref.Request // pending request of the model (the emulator's is cpu.Interrupt)
+	handlers   int          // bit 0: no RETN handler registered, bit 1: no RETI handler registered
 	afterEI    bool         // previous Step executed EI
 	parked     bool         // previous Step executed HALT (CPU is parked on it)
 	known      map[string]bool
@@ -41,7 +42,15 @@ func (r *lockRig) init(st ref.State, memSeed, ioSeed uint64, fill, ioFill int) {
 	r.mb.Reset(memSeed, ioSeed, fill, ioFill)
 	r.cpu = z80.CPU{Memory: r.ib, IO: r.ib}
 	r.retn.n, r.reti.n, r.mRetN, r.mRetI = 0, 0, 0, 0
-	r.cpu.RETNHandler, r.cpu.RETIHandler = &r.retn, &r.reti
+	// which handlers are registered varies with the case (a RETN must not reach the RETI handler when
+	// no RETN handler is registered, and so on)
+	r.handlers = int(memSeed>>4) & 3
+	if r.handlers&1 == 0 {
+		r.cpu.RETNHandler = &r.retn
+	}
+	if r.handlers&2 == 0 {
+		r.cpu.RETIHandler = &r.reti
+	}
 	eng.ToCPU(&st, &r.cpu)
 	r.ms = st
 	r.mReq = nil
@@ -192,11 +201,19 @@ func (r *lockRig) step() lockStep {
 			continue
 		}
 		if consumed {
-			s.R = got.R // R is not compared on acceptance Steps
+			if !in.IsHalt {
+				s.Halt = got.Halt // nor is the host-visible HALT indication (C06 is silent; keeping and clearing are both fine)
+			}
 		}
 		ds := eng.StateDiff(&got, &s, &o.pre, &in)
 		ds = append(ds, eng.LogDiff(r.ib, r.mb)...)
-		wantN, wantI := r.mRetN+in.RetN, r.mRetI+in.RetI
+		wantN, wantI := r.mRetN, r.mRetI
+		if r.handlers&1 == 0 {
+			wantN += in.RetN
+		}
+		if r.handlers&2 == 0 {
+			wantI += in.RetI
+		}
 		if r.retn.n != wantN || r.reti.n != wantI {
 			ds = append(ds, eng.Disc{Kind: eng.KIntr,
 				Msg: fmt.Sprintf("RETN/RETI handler calls %d/%d want %d/%d", r.retn.n, r.reti.n, wantN, wantI)})
